@@ -14,6 +14,7 @@
 import OrxPar.Lemmas.Logged
 import OrxPar.Lemmas.KernelsW
 import OrxPar.Lemmas.Ticket
+import OrxPar.Lemmas.TicketComplete
 import OrxPar.Lemmas.Panic
 namespace OrxPar
 
@@ -81,6 +82,28 @@ theorem C05_yield_once (n : Nat) (len : Option Nat) (sched : List (Nat × Ticket
         = List.range (Ticket.run (Ticket.init n len) sched).innerPos ∧
     ∀ p ∈ (Ticket.run (Ticket.init n len) sched).handed, p.1 = p.2 :=
   ⟨Ticket.handed_positions n len sched, Ticket.index_contract n len sched⟩
+
+/-- **C05 (every element is fed — completeness of the source protocol).** in a full-visit kernel
+    nobody calls `skip_to_end`; then the handle can only reach the COMPLETED state through a thread
+    that saw the inner iterator run dry, and at that point every element of the inner iterator has
+    been handed out: positions `0 … l−1`, each exactly once, each under its true index — for every
+    number of threads, chunk sizes and interleaving of the atomic steps -/
+theorem C05_source_complete (n l : Nat) (sched : List (Nat × Ticket.Act)) (hs : Ticket.NoSkip sched)
+    (hc : (Ticket.run (Ticket.init n (some l)) sched).y = .completed) :
+    (Ticket.run (Ticket.init n (some l)) sched).handed.map (·.2) = List.range l ∧
+    ∀ p ∈ (Ticket.run (Ticket.init n (some l)) sched).handed, p.1 = p.2 :=
+  Ticket.complete_without_skip n l sched hs hc
+
+/-- … and why a full-visit kernel (or the spawner) must never call `skip_to_end`, not even when
+    `has_more()` reports `No`: `No` means every position is *reserved*; a thread that holds a
+    reservation but not yet the handle gives up after `skip_to_end`, and its elements are never
+    yielded (the mechanism of four independently seeded changes, DESIGN §0) -/
+theorem C05_skip_to_end_loses_a_reservation :
+    let s := Ticket.run (Ticket.init 3 (some 2))
+      [(0, .start 1), (1, .start 1), (0, .tryAcquire), (2, .skip), (0, .readOne), (0, .release),
+       (1, .tryAcquire), (0, .start 1), (0, .tryAcquire)]
+    s.y = .completed ∧ s.handed = [(0, 0)] ∧ s.ths.all (fun t => t.pc == .idle) = true :=
+  Ticket.skip_loses_reservation
 
 /-- the protocol's internal assertions never fire, also across a concurrent `skip_to_end` -/
 theorem C05_no_assert (n : Nat) (len : Option Nat) (sched : List (Nat × Ticket.Act)) :
